@@ -178,7 +178,10 @@ class OutgoingRIB(Cache):
             indexed[route.index()] = route
 
         for route in new:
-            if indexed.pop(route.index(), None) is None:
+            before = indexed.pop(route.index(), None)
+            # the index is family and prefix only: the same prefix with other attributes or
+            # another next hop is a change, and has to be announced again
+            if before is None or before.attributes != route.attributes or before.nexthop != route.nexthop:
                 self.add_to_rib(route, True)
                 continue
 
